@@ -213,7 +213,7 @@ impl Check for C19 {
     }
     fn plan(&self, tier: Tier, _seed: u64) -> Plan {
         Plan {
-            cases: tier.pick(2, 30) + 1,
+            cases: tier.pick(2, 30) + 2,
             procs: tier.pick(2, 16),
             wall_s: 1200,
             cpu_s: None,
@@ -229,7 +229,30 @@ impl Check for C19 {
             rep.inconclusive.push(format!("{} not built", iwe_bin().display()));
             return rep;
         }
-        if case + 1 == tier.pick(2, 30) + 1 {
+        if case + 2 == tier.pick(2, 30) + 2 {
+            // pinned reproducer (open finding): a file name that is not valid UTF-8 (Latin-1 "café.md")
+            use std::os::unix::ffi::OsStrExt;
+            let dir = mon::scratch_dir("c19");
+            let log = dir.with_extension("strace");
+            let _ = std::fs::remove_dir_all(&dir);
+            std::fs::create_dir_all(&dir).unwrap();
+            let name = std::ffi::OsStr::from_bytes(b"caf\xe9.md");
+            std::fs::write(dir.join(name), b"# cafe\n\n*  item\n").unwrap();
+            std::fs::write(dir.join("other.md"), b"# other\n").unwrap();
+            let _ = run_iwe(&dir, None, None, &log);
+            rep.count("events", 1);
+            rep.count("pinned_reproducers", 1);
+            rep.shape(fnv("pinned:non-utf8-name"));
+            let names: Vec<Vec<u8>> = std::fs::read_dir(&dir).map(|rd| rd.flatten().map(|e| e.file_name().as_bytes().to_vec()).collect()).unwrap_or_default();
+            let content = std::fs::read(dir.join(name)).unwrap_or_default();
+            if names.len() != 2 || content != b"# cafe\n\n- item\n" {
+                rep.violate("written-to-other-path", "pinned:non-utf8-name", format!("after normalize the directory holds {:?}; the note read from caf\\xe9.md holds {:?}", names.iter().map(|n| String::from_utf8_lossy(n).to_string()).collect::<Vec<_>>(), String::from_utf8_lossy(&content)), json!({"files": ["caf\\xe9.md", "other.md"]}));
+            }
+            let _ = std::fs::remove_dir_all(&dir);
+            let _ = std::fs::remove_file(&log);
+            return rep;
+        }
+        if case + 1 == tier.pick(2, 30) + 2 {
             // pinned reproducer: a note file named dd.md.md
             let dir = mon::scratch_dir("c19");
             let log = dir.with_extension("strace");
